@@ -5,9 +5,14 @@ CHECKS = [
      "text": "Bounded symbolic model checking: the real SRPRule.check (parsers in the loop) runs on generated classes/structs while max_methods, max_loc, per-language overrides and check_keywords are solver variables; every path's iff-assertion is decided by z3 for all integer thresholds, so boundary exactness (a class sitting on a limit) is decided, not sampled. Class shapes are forked over a stated finite set.",
      "note": "Trusted: z3, the proxy-int engine (counterexamples are replayed with plain ints before being reported), the generator's own count of public methods / documented LOC. Class shapes outside the stated set are outside the claim.",
      "technique": TECH},
+    {"property_id": "C06", "design_ref": "DESIGN.md §4 C06",
+     "text": "Bounded symbolic model checking of the real formatters (JSON, SARIF, text) on up to 3 violations whose line/column are unbounded solver integers: 1-based SARIF positions, total = count, rule declarations and cross-format agreement are decided by z3 on every path; every linter command's exit code / own-rule filter is explored for all commands x formats x (own, foreign) violation counts and 7 usage-error classes.",
+     "note": "Trusted: z3, proxy ints (witnesses are replayed with plain ints through the real json encoder), click's CliRunner, the documented command->rule-id table. json.dumps is a recorder only while ints are symbolic. Surrogate/UTF-8 byte-level claims are not covered (C codec).",
+     "technique": TECH},
 ]
 
+DONE = {int(c['property_id'][1:]) for c in CHECKS} | {19}
 _PENDING = "check not built yet in this round (work in progress; see DESIGN.md Appendix B build order)"
 NOT_APPLICABLE = [
     {"property_id": "C19", "reason": "quantifies over programs fed to C parsers (documented examples x embeddings); nothing of the implementation's own logic is left to make symbolic, so solver-based checking does not apply (DESIGN.md §5)"},
-] + [{"property_id": "C%02d" % i, "reason": _PENDING} for i in range(1, 21) if i not in (16, 19)]
+] + [{"property_id": "C%02d" % i, "reason": _PENDING} for i in range(1, 21) if i not in DONE]
